@@ -242,4 +242,30 @@ theorem allZF_iff {xs : List Arg} : ZeroFree.allZF xs ↔ ∀ x ∈ xs, ZeroFree
   | nil => simp [ZeroFree.allZF]
   | cons y r ih => simp [ZeroFree.allZF, ih]
 
+
+/-- on a list without literal zeros the replacement changes nothing (it only hands out ids) -/
+theorem rz_id_of_zeroFree (sil : Arg) (s : Nat) (xs : List Arg) (h : ZeroFree.allZF xs) :
+    (rzItems sil s xs).2 = xs := by
+  revert h
+  refine rzItems.induct
+    (motive1 := fun sil s xs => ZeroFree.allZF xs → (rzItems sil s xs).2 = xs)
+    (motive2 := fun s xs => ZeroFree.allZF xs → (rzList s xs).2 = xs)
+    ?_ ?_ ?_ ?_ ?_ sil s xs
+  · intro sil s _; simp [rzItems]
+  · intro sil s r _ h
+    simp [ZeroFree.allZF, ZeroFree] at h
+  · intro sil s c xs r
+    dsimp only
+    intro ih2 ih1 h
+    simp only [ZeroFree.allZF, ZeroFree] at h
+    simp only [rzItems.eq_3]
+    rw [ih2 h.1, ih1 h.2]
+  · intro sil s a r h1 h2 ih h
+    simp only [ZeroFree.allZF] at h
+    rw [rzItems.eq_4 sil s a r h1 h2]
+    simp only
+    rw [ih h.2]
+  · intro s xs ih h
+    rw [rzList.eq_1]; exact ih h
+
 end Sc3Verif.C03
